@@ -1,10 +1,13 @@
 #!/usr/bin/env python3
 """Copies a verified seeded change into /verif/seeded/<id>/ (patch.diff against the /repo HEAD it was verified on,
-the agent's demonstration, meta.json).  usage: seedkeep.py <Cxx> <n> <detected_by> <note>"""
+the agent's demonstration, meta.json).  usage: seedkeep.py <Cxx> <n> <detected_by> <note> [<wave> <dst n>]
+(wave 4: sources in /tmp/seedwork/out4-<Cxx>/<n>, kept under /verif/seeded/<Cxx>-<dst n>)"""
 import json, os, shutil, subprocess, sys
 pid, n, detected, note = sys.argv[1], sys.argv[2], sys.argv[3], sys.argv[4]
-src = "/tmp/seedwork/out-%s/%s" % (pid, n)
-dst = "/verif/seeded/%s-%s" % (pid, n)
+wave = sys.argv[5] if len(sys.argv) > 5 else ""
+dn = sys.argv[6] if len(sys.argv) > 6 else n
+src = "/tmp/seedwork/out%s-%s/%s" % (wave, pid, n)
+dst = "/verif/seeded/%s-%s" % (pid, dn)
 os.makedirs(dst, exist_ok=True)
 pf = os.path.join(src, "patch.head.diff")
 if not os.path.exists(pf) or os.path.getsize(pf) == 0:
@@ -12,10 +15,10 @@ if not os.path.exists(pf) or os.path.getsize(pf) == 0:
 shutil.copy(pf, os.path.join(dst, "patch.diff"))
 shutil.copy(os.path.join(src, "demo.py"), os.path.join(dst, "demo.py"))
 meta = json.load(open(os.path.join(src, "meta.json")))
-ver = open("/tmp/seedwork/verify-%s-%s.txt" % (pid, n)).read().strip()
+ver = open(("/tmp/seedwork/verify%s-out%s-%s-%s.txt" % (wave, wave, pid, n)) if wave else ("/tmp/seedwork/verify-%s-%s.txt" % (pid, n))).read().strip()
 head = subprocess.run(["git", "-C", "/repo", "log", "--format=%h", "-1"], capture_output=True, text=True).stdout.strip()
 out = {
-    "id": "%s-%s" % (pid, n),
+    "id": "%s-%s" % (pid, dn),
     "property": pid,
     "summary": meta.get("summary"),
     "needs": meta.get("needs"),
